@@ -610,8 +610,9 @@ def parser_tie(ctx, n):
             try: ast.parse(s, mode='eval'); msg = ''
             except SyntaxError as e: msg = str(e)
             except Exception as e: msg = type(e).__name__
-            if re.search(r'follows|duplicate argument|keyword argument repeated', msg):
-                # order rules between kinds of arguments / parameters: outside the expression grammar that is modelled
+            if re.search(r'follows|duplicate argument|keyword argument repeated|may appear only once|cannot follow var-keyword|must follow bare', msg):
+                # order / multiplicity rules of argument and parameter lists (one *name, nothing after **name, defaults last):
+                # outside the expression grammar that is modelled - the printer writes parameters in postarguments' fixed order
                 ctx.count('parser-tie:cpython-argument-order-rule'); continue
         try:
             want = None if py is None else to_model(py)
